@@ -66,3 +66,31 @@ Print Assumptions c02_history_sorted_map.
 Theorem c02_history_nonvacuous : ops_ok [] ex_history /\ history_ok ex_history.
 Proof. exact DStoreRefine.ex_history_ok. Qed.
 Print Assumptions c02_history_nonvacuous.
+
+(* ---------------------------------------------------------------------------------------------- *)
+(* REGENERATED FROM THE SOURCE ON EVERY RUN (tools/gen -> Generated.g_code; Decisions.v): the decisions the model
+   takes at these points are the evaluations of the conditions the Go source has there, for all values of their
+   variables. *)
+From GK Require Import GExpr Generated Decisions.
+From Coq Require Import String.
+
+(* Flush writes only what is not yet persisted (Disk.write_items / write_nodes skip persisted nodes and items) *)
+Theorem c02_write_skips_persisted_is_source :
+  exists c1 c2, decisions "Collection.writeItems" "nloc" = [c1] /\ decisions "Collection.writeNodes" "nloc" = [c2] /\
+    forall isnil persisted : bool,
+      let rho := upd (upd env0 "nloc" (b2z (negb isnil))) "nloc.Loc().isEmpty()" (b2z (negb persisted)) in
+      gtrue rho c1 = Some (isnil || persisted) /\ gtrue rho c2 = Some (isnil || persisted).
+Proof. exact Decisions.write_skips_persisted. Qed.
+Print Assumptions c02_write_skips_persisted_is_source.
+
+Theorem c02_item_written_once_is_source :
+  exists c, hd_error (conds 400 (body "itemLoc.write")) = Some c /\
+    forall empty : bool, gtrue (upd env0 "iloc.Loc().isEmpty()" (b2z empty)) c = Some empty.
+Proof. exact Decisions.item_written_once. Qed.
+Print Assumptions c02_item_written_once_is_source.
+
+Theorem c02_node_written_once_is_source :
+  exists c, hd_error (conds 400 (body "nodeLoc.write")) = Some c /\
+    forall notnil empty : bool, gtrue (upd (upd env0 "nloc" (b2z notnil)) "loc.isEmpty()" (b2z empty)) c = Some (notnil && empty).
+Proof. exact Decisions.node_written_once. Qed.
+Print Assumptions c02_node_written_once_is_source.
